@@ -228,6 +228,61 @@ def run(chk: core.Check, n: int, n_obj: int):
     return [{"track": int(i), **pd(int(i)), "model": [cur["dr"][i], cur["phi0"][i], cur["dz"][i]], "impl": [chained["dr"][i], chained["phi0"][i], chained["dz"][i]]} for i in np.nonzero(~okm & reg)[0][:3]]
 
 
+def small_steps_and_layouts(chk: core.Check, thorough: bool):
+    """(a) a long walk in very small steps away from the origin equals the direct move (object, record and array form): no step may be
+    dropped as "already there"; (b) the error matrix handed in with another memory layout (Fortran order, transposed view, strided slice,
+    read-only) is the same matrix: identity move, there-and-back and the direct move give the same result as with a C-contiguous copy"""
+    import awkward as ak
+    import pybes3
+    rng = np.random.default_rng(chk.seed + 111)
+    A = rng.normal(size=(5, 5)); E = A @ A.T * 1e-3
+    # ---- (a)
+    for kappa in (-1.3, 0.8):
+        start, end = np.array([40.0, 30.0, 20.0]), np.array([41.0, 30.75, 20.5])
+        steps = 12000 if thorough else 6000
+        h0 = pybes3.helix_obj(0.3, 1.0, kappa, -1.2, 0.5, pivot=tuple(start), error=E.copy())
+        direct = h0.change_pivot(tuple(end))
+        cur = h0
+        arr = pybes3.helix_awk(ak.Array([[0.3, 1.0, kappa, -1.2, 0.5]]), pivot=tuple(start))
+        for k in range(1, steps + 1):
+            p = tuple(start + (end - start) * k / steps)
+            cur = cur.change_pivot(p)
+            if k % 10 == 0 or k == steps:
+                arr = arr.change_pivot(p)
+        chk.count(steps, key=f"small-steps-{kappa}")
+        got = [cur.dr, cur.phi0, cur.dz]; want = [direct.dr, direct.phi0, direct.dz]
+        ga = [float(arr.dr[0]), float(arr.phi0[0]), float(arr.dz[0])]
+        for form, g, e_ok in (("object", got, np.allclose(cur.error, direct.error, rtol=1e-6, atol=1e-12)), ("array", ga, True)):
+            if not (hc.close(g[0], want[0], atol=1e-7) and hc.circ_close(g[1], want[1], 1e-7) and hc.close(g[2], want[2], atol=1e-7) and e_ok):
+                chk.failing_input(f"pivot walked in {steps} small steps vs the direct move ({form} form)", {"helix": [0.3, 1.0, kappa, -1.2, 0.5], "from": start.tolist(), "to": end.tolist(), "steps": steps},
+                                  {"dr": g[0], "phi0": g[1], "dz": g[2]}, {"dr": want[0], "phi0": want[1], "dz": want[2]}, "moving through any sequence of pivots gives the same result as moving directly to the last one")
+                return
+    # ---- (b)
+    big = np.asfortranarray(rng.normal(size=(7, 10)))
+    big[1:6, 2:7] = E
+    ro = E.copy(); ro.setflags(write=False)
+    layouts = {"C-contiguous": E.copy(), "Fortran order": np.asfortranarray(E), "transposed view": np.ascontiguousarray(E.T).T, "strided slice of a larger array": big[1:6, 2:7], "every-second-element view": np.repeat(np.repeat(E, 2, axis=0), 2, axis=1)[::2, ::2], "read-only": ro}
+    ref = None
+    for name, M in layouts.items():
+        assert np.array_equal(np.asarray(M), E)
+        for kappa in (-1.3, 0.8):
+            h0 = pybes3.helix_obj(0.3, 1.0, kappa, -1.2, 0.5, pivot=(1.0, 2.0, 3.0), error=M)
+            same = h0.change_pivot((1.0, 2.0, 3.0))
+            there = h0.change_pivot((4.0, -2.0, 1.0))
+            back = there.change_pivot((1.0, 2.0, 3.0))
+            res = {"identity": np.asarray(same.error), "direct": np.asarray(there.error), "back": np.asarray(back.error)}
+            chk.count(3, key=f"error-layout-{name}")
+            if name == "C-contiguous":
+                ref = ref or {}
+                ref[kappa] = res
+            okk = np.allclose(res["identity"], E, rtol=1e-9, atol=1e-15) and np.allclose(res["back"], E, rtol=1e-7, atol=1e-13) and np.allclose(res["direct"], ref[kappa]["direct"], rtol=1e-12, atol=0)
+            if not okk:
+                which = "identity" if not np.allclose(res["identity"], E, rtol=1e-9, atol=1e-15) else ("back" if not np.allclose(res["back"], E, rtol=1e-7, atol=1e-13) else "direct")
+                chk.failing_input(f"error matrix given as a {name} array: {which} move", {"helix": [0.3, 1.0, kappa, -1.2, 0.5], "pivot": [1, 2, 3], "error_matrix": E.tolist(), "memory_layout": name},
+                                  res[which].tolist(), (E if which != "direct" else ref[kappa]["direct"]).tolist(), "moving to the current pivot changes nothing; there and back restores the error matrix; the result does not depend on how the same matrix is laid out in memory")
+                return
+
+
 def main(chk: core.Check) -> int:
     n, n_obj = (10000, 600) if chk.tier == "thorough" else (1500, 100)
     chk.coverage["rule"] = "evaluations = change_pivot calls along generated pivot sequences (length 1-8, pivots up to 4 m away); tolerance 1e-8 relative to track scale"
@@ -237,6 +292,8 @@ def main(chk: core.Check) -> int:
     try:
         diffs = run(chk, n, n_obj)
         chk.coverage["traces_validated_against_impl"] = n
+        if not chk.failing:
+            small_steps_and_layouts(chk, chk.tier == "thorough")
         if diffs:
             chk.obligation_broken("correspondence", "chained Lean Float changePivot vs implementation", str(diffs[:2]))
     except core.DriverError as ex:
